@@ -34,6 +34,7 @@ theorem FI_read (N : Nat) (links : List (Nat × List Tgt)) (ss : Nat → S) (g :
     (fun r hr => h.reqsOK n r hr)
     (by simp only [CurOK]; exact h.inboxOK n p (by rw [hi]; simp))
     (fun q hq => h.inboxOK n q (by rw [hi]; simp [hq]))
+    (ordAt_none g.log g.next g.next hub.2.1 hub.1)
   exact FI_congr N links _ D0 _ _ key rfl rfl rfl rfl rfl rfl rfl rfl rfl
 
 /-- the `Link` call of a forward thread -/
@@ -53,6 +54,7 @@ theorem FI_link (N : Nat) (links : List (Nat × List Tgt)) (ss : Nat → S) (g :
     (fun r hr => h.reqsOK n r hr)
     (by simpa [CurOK] using hcur)
     (fun q hq => h.inboxOK n q hq)
+    (ordAt_none g.log g.next g.next hub.2.1 hub.1)
   exact FI_congr N links _ D0 _ _ key rfl rfl rfl rfl rfl rfl rfl rfl rfl
 
 theorem rel_nodup_ne (s : S) (nd : Node) (nx : Nat) (hr : Rel s nd nx) (x y : Pid)
@@ -119,6 +121,18 @@ theorem FI_release (N : Nat) (links : List (Nat × List Tgt)) (hwf : TreeWF N li
       have hne : x.id ≠ p.id := fun e =>
         rel_nodup_ne _ nd g.next hrel p.id x.id (by simp [hc, NodeSpec.idsC]) (List.mem_map_of_mem hxi) e.symm
       exact unlogged_ext g.log lg' p.id hx x.id hne (h.inboxOK n x hxi))
+    (by
+      refine ⟨fun cs hcs => ?_, fun qs hqs => ?_⟩
+      · have : aget lg'.dels p.id = none := hup.2.1
+        rw [this] at hcs; cases hcs
+      · have : aget lg'.acts p.id = some [g.next] := by simp [lg', aget_aset]
+        rw [this] at hqs
+        simp only [Option.some.injEq] at hqs
+        subst hqs
+        intro q hq
+        simp only [List.mem_singleton] at hq
+        subst hq
+        exact ⟨hplt, Nat.lt_succ_self _⟩)
   exact FI_congr N links _ D0 _ _ key rfl rfl rfl rfl rfl rfl rfl rfl rfl
 
 end Uniflow.FlowInv
